@@ -3646,7 +3646,13 @@ func restartSubtree(ctx context.Context, node *restartNode, parent *PID, tree *t
 		return fmt.Errorf("actor=(%s) failed to restart: %w", pid.Name(), err)
 	}
 
-	pid.schedState.reset()
+	// The dispatch state is deliberately not forced back to Idle here. The
+	// actor has been accepting messages since init() set it running, so a
+	// worker may already own it again (Scheduled or Processing). Resetting to
+	// Idle at this point let the next Tell schedule the actor a second time and
+	// a second worker run its handler concurrently with the first. Every turn
+	// leaves the state consistent on its own (Idle, or Scheduled with the actor
+	// on the ready queue), so nothing needs repairing.
 	pid.setState(suspendedState, false)
 	pid.startPassivation()
 
